@@ -24,17 +24,27 @@ NoView == [objs |-> <<>>, unc |-> {}, cov |-> <<>>, pops |-> <<>>]
 VARIABLES tid, l,
           cur,   \* the event consumed last: the call and what it returned
           Pre,   \* the archive as projected after the previous call
-          Post   \* the archive as projected after this call
-vars == <<tid, l, cur, Pre, Post>>
+          Post,  \* the archive as projected after this call
+          capn,  \* the capacity announced to the MIO archive: initial size, then the n of the last shrink
+          PreC, PostC  \* who is archived with which statements: per goal <<[id, cv, size]>> (cv = content
+                       \* version of the test case as it is now), before / after
+vars == <<tid, l, cur, Pre, Post, capn, PreC, PostC>>
 
 NoEv == [op |-> "none"]
 Init == /\ tid \in 1..Len(Traces) /\ l = 0 /\ cur = NoEv /\ Pre = NoView /\ Post = NoView
+        /\ capn = 0 /\ PreC = <<>> /\ PostC = <<>>
 \* the first event ("init") carries the projection of the freshly constructed archive
 Next == /\ l < Len(Traces[tid].ev)
         /\ l' = l + 1
-        /\ cur' = [Traces[tid].ev[l + 1] EXCEPT !.post = <<>>]
+        /\ cur' = [Traces[tid].ev[l + 1] EXCEPT !.post = <<>>, !.cvs = <<>>]
         /\ Post' = ViewV(Traces[tid].ev[l + 1].post)
-        /\ Pre' = IF l = 0 THEN Post' ELSE Post
+        \* (the view of a "recheck" carries re-executed `covers`: the next call is compared with the
+        \*  view the archive had before the re-execution)
+        /\ Pre' = IF l = 0 THEN Post' ELSE IF cur.op = "recheck" THEN Pre ELSE Post
+        /\ PostC' = Traces[tid].ev[l + 1].cvs
+        /\ PreC' = IF l = 0 THEN PostC' ELSE PostC
+        /\ capn' = IF Traces[tid].ev[l + 1].op \in {"init", "shrink", "pop_shrink"}
+                   THEN Traces[tid].ev[l + 1].n ELSE capn
         /\ UNCHANGED tid
 Spec == Init /\ [][Next]_vars
 
@@ -48,7 +58,10 @@ Steps == [i \in DOMAIN cur.steps |-> [g |-> cur.steps[i].g, sol |-> SolV(cur.ste
 ReplaceRule       == (l > 0 /\ cur.op # "recheck") =>
                         /\ StepsOK(Pre.cov, Steps)
                         /\ ReplaceRuleP([Pre EXCEPT !.cov = StepsFinal(Pre.cov, Steps)], Post, cur.sols)
-MIOCap            == l > 0 => MIOCapP(Post)
+MIOCap            == l > 0 => (MIOCapP(Post) /\ (cur.mode \in {"mio", "pop"} => MIOCapNP(Post, capn)))
+\* the archive owns its tests: outside of archive calls ("observe": the archive found changed between
+\* two calls, "recheck": after a step of the search loop) nobody replaced or edited an archived chromosome
+ArchiveOwns       == (l > 1 /\ cur.op \in {"observe", "recheck"}) => PostC = PreC
 MIOCoveredOne     == l > 0 => (MIOCoveredOneP(Post) /\ MIOStaysP(Pre, Post))
 CoveredConsistent == l > 0 => CoveredConsistentP(Post)
 
